@@ -67,7 +67,11 @@ def run(ctx, prop, bias):
         ctx.run_driver(vh, "TestDrv_Pump", out3, {"VERIF_MAINDRV": ctx.build_maindrv()}, timeout=3000)
         plines = open(os.path.join(out3, "pump.ndjson")).readlines()
         pn, pev, prej = core.validate_cases(ctx, "attack", "PumpTrace", "PumpTrace.cfg", None, cases=[(1, plines)], prefix="pump")
-        report_rejections(ctx, prej, lambda l, o: "Pump:" + l[o - 1].strip()[:200], "scripted run of processAttack rejected by Pump!Expected")
+        report_rejections(ctx, prej, lambda l, o: "Pump:" + l[o - 1].strip()[:200], "run of the real processAttack loses or duplicates results (Pump.tla)")
+        if not prej:     # the exact outcome of every scripted run (when it returns, what it wrote, who stopped the attack): model drift only
+            _, _, srej = core.validate_cases(ctx, "attack", "PumpTrace", "PumpTraceStrict.cfg", None, cases=[(1, plines)], prefix="pumpstrict", max_reject=3)
+            for start, lines, off in srej:
+                ctx.drift.append("scripted run of processAttack differs from Pump!Expected: " + lines[off - 1].strip()[:200])
         ctx.coverage["pump_scripts_validated"] = len(plines) - 1
     # 3c. C04 under the real scheduler and the real runtime timers, with the timer-channel semantics of both go.mod generations
     rt_cases = []
